@@ -3,6 +3,7 @@ import TmVerif.Model.LRSound
 import TmVerif.Model.LRRef
 import TmVerif.Model.LRAccept
 import TmVerif.Model.LRComplete
+import TmVerif.Model.LRViable
 import TmVerif.Model.DriverC03
 namespace TmVerif.DriverC01
 open TmVerif.Proto TmVerif.LR TmVerif.CFG TmVerif.LRSound
@@ -38,10 +39,23 @@ def validateCompl (g : Grammar) (t : Tables) : Option String :=
     if LRComplete.complOk g t cc then none
     else some s!"mismatch completeness certificate: {LRComplete.complFailure g t cc}"
 
+/-- viable-prefix certificate (hypothesis of `C01_lr_error_position`): kernels from the LR(0)
+reference walk over the default encoding, checked against the encoding in use. -/
+def validateViable (g : Grammar) (t : Tables) : Option String :=
+  match LRViable.mkVCert g { t with optimized := false } with
+  | .error m => some s!"mismatch viable-prefix certificate: cannot be built: {m}"
+  | .ok vc =>
+    if LRViable.viableOk g t vc then none
+    else some s!"mismatch viable-prefix certificate: {LRViable.viableFailure g t vc}"
+
 def validate (g : Grammar) (t : Tables) (compl : Bool := true) : String :=
   let cert := computePast g t
   if certOk g t cert then
-    if compl then (validateCompl g t).getD "ok" else "ok"
+    if compl then
+      match validateCompl g t with
+      | some m => m
+      | none => (validateViable g t).getD "ok"
+    else "ok"
   else
     let msg := firstFailure g t cert
     -- classify final-state failures precisely with the LR(0) reference walk (default encoding)
@@ -55,7 +69,8 @@ def validate (g : Grammar) (t : Tables) (compl : Bool := true) : String :=
 
 /-- `validate <grammar 6> <tables> <useOpt> [nocompl]` : soundness certificate check and, unless
 `nocompl` is given (minimized tables: states are merged, the LR(0) reference walk does not apply),
-the completeness certificate check.
+the completeness certificate check and the viable-prefix certificate check (`ok` = all three
+certificates hold, i.e. every hypothesis of the C01 theorems about the tables).
 `run <tables> <useOpt> <input> <toks> <endOff>` : the model's listener trace.
 `accept <tables> <useOpt> <input> <spec>…` : sentences check against the brute-force recogniser. -/
 def handleCase (args : List String) : Option String :=
